@@ -80,6 +80,9 @@ def strategy(tier):
                              "withheld"]),
         cand=st.sampled_from(["file-x", "file-x", "file-nox", "dir", "absent"]),
         zombie=st.sampled_from([False, False, False, False, True]),
+        # how the kernel withholds a link of a live process: readlink fails
+        # with ENOENT or (psutil issue 503) with ESRCH
+        withheld_errno=st.sampled_from(["ENOENT", "ENOENT", "ESRCH"]),
         # all calls made inside one `with p.oneshot():` block
         oneshot=st.booleans(),
     ))
@@ -149,6 +152,12 @@ def run_case(case):
 
     exe_t, exp_exe = link_target(case["exe"], ROOT + "/bin/realexe", k)
     cwd_t, exp_cwd = link_target(case["cwd"], ROOT + "/work dir", k)
+    if case.get("withheld_errno") == "ESRCH" and not case["zombie"]:
+        import errno as _errno
+        if exe_t is None:
+            exe_t = _errno.ESRCH
+        if cwd_t is None:
+            cwd_t = _errno.ESRCH
     k.spawn(pid, comm=comm, cmdline=blob, environ=env_blob, exe=exe_t, cwd=cwd_t,
             zombie=case["zombie"], state=b"Z" if case["zombie"] else b"S")
     # candidate for the exe() fallback: cmdline()[0]
